@@ -353,12 +353,24 @@ func describeLineariser(v *GVal) string {
 	if !ok || calleeName(&call.Call) != "math.Pow" {
 		return "?closure"
 	}
-	arg := func(v ssa.Value) string {
-		if v == ssa.Value(f.Params[0]) {
+	arg := func(a ssa.Value) string {
+		if a == ssa.Value(f.Params[0]) {
 			return "x"
 		}
-		if k, ok := v.(*ssa.Const); ok && k.Value != nil {
-			if fl, ok := constant.Float64Val(constant.ToFloat(k.Value)); ok {
+		var kv constant.Value
+		if k, ok := a.(*ssa.Const); ok && k.Value != nil {
+			kv = k.Value
+		}
+		// a captured variable holding a constant (the closure is built by a helper taking the exponent)
+		if ld, ok := a.(*ssa.UnOp); ok && ld.Op == token.MUL {
+			if fv, ok := ld.X.(*ssa.FreeVar); ok {
+				if b := v.Bind[fv]; b != nil && b.Kind == "const" && b.Const != nil {
+					kv = b.Const
+				}
+			}
+		}
+		if kv != nil {
+			if fl, ok := constant.Float64Val(constant.ToFloat(kv)); ok {
 				switch {
 				case fl == float64(int64(fl)):
 					return fmt.Sprint(int64(fl))
